@@ -2003,7 +2003,17 @@ class KmipEngine(object):
             )
 
         managed_object_factory = factory.ObjectFactory()
-        managed_object = managed_object_factory.convert(secret)
+        try:
+            managed_object = managed_object_factory.convert(secret)
+        except (TypeError, ValueError):
+            self._logger.debug(
+                "Failed to convert the secret to be registered.",
+                exc_info=True
+            )
+            raise exceptions.InvalidField(
+                "The secret is malformed or of an unsupported kind and "
+                "cannot be registered."
+            )
         managed_object.names = []
 
         self._set_attributes_on_managed_object(
